@@ -34,6 +34,8 @@ PBase == <<
   \* field numbers beyond 15: the key no longer fits the one-octet varint (16..) - as message and as oneof
   TSeq([i \in 1..33 |-> IF i % 3 = 0 THEN O(TBool) ELSE IF i % 3 = 1 THEN M(I07) ELSE O(TStr("utf8", NoSz))], 33, FALSE),
   TSeq(<<M(TChoice([i \in 1..33 |-> IF i % 2 = 1 THEN I07 ELSE TBool], 33, FALSE)), M(I07)>>, 2, FALSE),
+  \* values of 64 bits: an unconstrained INTEGER (u64 / uint64) and an extensible one with a negative bound (i64 / sint64)
+  TSeq(<<M(TIntB(NoCon)), M(TIntB(Rng(0 - 10, 10, TRUE))), O(TIntB(NoCon)), M(I07)>>, 4, FALSE),
   TSeq(<<M(Inner), O(Inner), M(TSeqOf(I07, NoSz)), M(TSeqOf(Inner, NoSz)), M(TSeqOf(TStr("utf8", NoSz), NoSz)), M(TSeqOf(TBool, NoSz)), M(I07)>>, 7, FALSE),
   TSeq(<<M(Ch1), O(Ch1), M(Ch2), M(I07)>>, 4, FALSE),
   TSeq(<<O(I07), O(TBool), O(TStr("utf8", NoSz)), O(TOct(NoSz)), O(Enum3), O(PI(0 - 5, 5)), M(I07)>>, 7, FALSE),
@@ -86,6 +88,10 @@ PExtra(i) ==
   ELSE IF PZoo[i].k = "seq" /\ PZoo[i].comps[1].t.k = "choice" /\ Len(PZoo[i].comps[1].t.alts) > 8
   THEN \* a wide oneof: every alternative (field numbers on both sides of 15 / 16)
        LET alts == PZoo[i].comps[1].t.alts IN [a \in 1..Len(alts) |-> << <<[i |-> a - 1, v |-> Rep(alts[a])[1]]>>, <<5>> >>]
+  ELSE IF PZoo[i].k = "seq" /\ "big" \in DOMAIN PZoo[i].comps[1].t
+  THEN \* every 64-bit boundary value in both number fields
+       LET us == SetToSeq(BigVals(NoCon))  ss == SetToSeq(BigVals(Rng(0 - 10, 10, TRUE)))
+       IN [q \in 1..Len(ss) |-> << <<us[(q % Len(us)) + 1]>>, <<ss[q]>>, (IF q % 2 = 0 THEN <<>> ELSE <<us[((q * 7) % Len(us)) + 1]>>), <<5>> >>]
   ELSE IF i # EmptyIdx THEN <<>>
   ELSE << << <<<<FullM, EmptyM, FullM>>>>, <<[i |-> 0, v |-> EmptyM]>>, <<>>, <<5>> >>,
           << <<<<EmptyM, EmptyM>>>>, <<[i |-> 0, v |-> FullM]>>, <<EmptyM>>, <<5>> >>,
@@ -101,7 +107,8 @@ PDevOf(i, Dev) ==
 IntSweep == {0, 1, 0 - 1, 127, 128, 16383, 16384, 2097151, 2097152, 268435455, 268435456, 1073741823, 1073741824, 2147483647,
              0 - 64, 0 - 65, 0 - 1073741824, 0 - 1073741825, 0 - 2147483647}
 SweepVals(t) ==
-  CASE t.k = "int" -> IF t.con.c = "none" THEN {x \in IntSweep : x >= 0} ELSE {x \in IntSweep \cup {t.con.lb, t.con.ub} : x >= t.con.lb /\ x <= t.con.ub}
+  CASE t.k = "int" /\ "big" \in DOMAIN t -> BigVals(t.con)
+    [] t.k = "int" -> IF t.con.c = "none" THEN {x \in IntSweep : x >= 0} ELSE {x \in IntSweep \cup {t.con.lb, t.con.ub} : x >= t.con.lb /\ x <= t.con.ub}
     [] t.k \in {"oct", "str", "seqof"} -> {ListOfLen(t, n) : n \in {0, 1, 127, 128, 300}}
     [] t.k = "bits" -> {ListOfLen(t, n) : n \in {0, 1, 7, 8, 9, 1023}}
     [] t.k = "enum" -> 0..(t.nroot + t.nadd - 1)
@@ -115,7 +122,7 @@ Sweep(t, base) ==
 \* the value in which every present component holds the zero / empty value of its kind
 RECURSIVE ZeroOf(_)
 ZeroOf(t) ==
-  CASE t.k = "bool" -> FALSE [] t.k = "null" -> 0 [] t.k = "int" -> (IF t.con.c = "none" \/ (t.con.lb <= 0 /\ t.con.ub >= 0) THEN 0 ELSE t.con.lb)
+  CASE t.k = "bool" -> FALSE [] t.k = "null" -> 0 [] t.k = "int" -> (IF "big" \in DOMAIN t THEN BZero ELSE IF t.con.c = "none" \/ (t.con.lb <= 0 /\ t.con.ub >= 0) THEN 0 ELSE t.con.lb)
     [] t.k = "enum" -> 0 [] t.k \in {"oct", "bits", "str", "seqof"} -> <<>>
     [] t.k = "seq" -> [i \in 1..Len(t.comps) |-> <<ZeroOf(t.comps[i].t)>>]
     [] t.k = "choice" -> [i |-> 0, v |-> ZeroOf(t.alts[1])]
